@@ -6,3 +6,7 @@ pub(crate) mod stubs;
 
 mod ent;
 mod mutg;
+pub(crate) mod common;
+pub(crate) mod ref_dis;
+pub(crate) mod ref_table;
+mod tail;
